@@ -283,6 +283,8 @@ func c19(c *Ctx) (*report.Result, error) {
 	checkTLSConstructors(c, res)
 	checkTLSSettingsRole(c, res)
 	checkIsEnabledTruthTable(c, res)
+	res.RuleDoc["O19.7"] = "every endpoint is built from the CA material as it is when the endpoint is built: package encryption keeps no state between calls (no package-level or receiver state written after init) - a cached pool keeps trusting a CA that has been replaced"
+	checkStateless(c, res, "O19.7", []string{"encryption"}, map[string]string{})
 
 	res.Explanation = "SSA of encryption.GetServerTLSConfig / GetClientTLSConfig / fetchCACert (every store into a *tls.Config field, its constant or origin, and the SkipCAVerification side it lies on; propagation of CA-load errors), and a who-constructs scan over all non-test functions of the module for tls.Server/Client/Listen/Dial/NewListener, credentials.NewTLS, tls.Config literals and stores to security-relevant tls.Config fields. What a tls.Config enforces is fixed by these fields; the handshake itself (crypto/tls) is trusted. Does not decide certificate validity periods or behaviour of crypto/tls."
 	res.Assumptions = []string{"crypto/tls verifies the client chain against ClientCAs only for VerifyClientCertIfGiven / RequireAndVerifyClientCert, and requires a certificate only for RequireAnyClientCert / RequireAndVerifyClientCert", "auth.NewEmptyTLSConfig returns a config without relaxations"}
